@@ -1,5 +1,8 @@
 import CelmaVerif.Lemmas.FixedStringC11All
 import CelmaVerif.Lemmas.FixedStringC11Dev
+import CelmaVerif.Lemmas.FixedStringC11DevStep
+import CelmaVerif.Lemmas.FixedStringC11DevNul
+import CelmaVerif.Lemmas.FixedStringC11DevIt
 /-
   C11 — a fixed-capacity string equals `std::string` cut off at the capacity.
   Property theorems only (helper lemmas: Lemmas/FixedStringC11*.lean).
@@ -221,130 +224,202 @@ theorem C11_iteration (c : Cfg) (hc : CfgOK c) (s : FStr) (hs : WF c s) :
 
 /-! ### outside the documented domain: what the code does where `inDomain` is false, next to `std::string`
 
-  `inDomain` excludes two kinds of arguments.  (1) Arguments on which `std::string` itself is undefined or throws
-  (`pos > size()`, unreadable `[p, p + n)`, `pop_back()` on an empty string): nothing to compare.  (2) Arguments on
-  which `std::string` is defined and `FixedString` deliberately answers differently; each of these is pinned by a
-  test of the baseline suite (src/library/common/test/test_fixed_string.cpp, lines quoted below) or follows from the
-  header's wording, so a repair is not possible without breaking the pinned tests.  The theorems of this section
-  make every exclusion of kind (2) a statement: the answer of the code for *all* such arguments, and the textbook
-  answer it differs from.  None of them is used by `C11_step`. -/
+  `inDomain` excludes three kinds of arguments.  (1) Arguments on which `std::string` itself is undefined or throws
+  (`pos > size()`, unreadable `[p, p + n)`, `pop_back()` on an empty string, `operator[]` beyond `size()`,
+  `erase( end())`) and the operations without a `std::string` counterpart (set-up of the source objects,
+  FixedString's iterator arithmetic): `stdDefined = false`, nothing to compare.  (2) Arguments that violate the
+  caller contract of the code although `std::string` accepts them: the four `(p, n)` overloads that call
+  `strlen( p)` on a `p` without terminator (`C11_unterminated_count_outside_contract`).  (3) Arguments on which
+  `std::string` is defined, the contract holds and `FixedString` answers differently: the eleven `DevKind`s.
+  `C11_outside_domain_covered` proves that there is nothing else, and for every `DevKind` one theorem below states —
+  for EVERY operation `op` with `devCase … op = some kind`, at the level of `step` — what the code answers and what
+  the textbook answers.  All of (3) is pinned by tests of the baseline suite (src/library/common/test/
+  test_fixed_string.cpp, lines quoted) or documented in the header, except `strchrNul`, `nulInIteratorSource` and
+  `rfindCountZero`, which follow from the use of `strlen`/`strchr` on C strings (documented: "C string").
+  None of these theorems is used by `C11_step`. -/
 
-/-- `at( length())` returns the terminator (header: "If the given index is invalid, i.e. after the end of the
-    string ..."; test `at` pins `at( length())`), `std::string::at( size())` throws `out_of_range`. -/
-theorem C11_deviation_at_length (c : Cfg) (s : FStr) (hs : WF c s) :
-    at_ s s.len = .ok 0 ∧ StdString.at_ (abs s) s.len = .throw .out_of_range :=
-  at_len hs
+/-- **Nothing is excluded silently.**  For every operation outside `inDomain` that satisfies the caller contract
+    of the code (`ArgsOK`) and on which `std::string` is defined (`stdDefined`: its own preconditions on pointers and
+    iterator pairs hold and the textbook specification returns instead of throwing), one of the eleven deviation
+    kinds applies (`devCase`, decidable).  `stdDefined` is not narrowed by hand: it is `stdReadable` (what the value
+    level cannot see) and "`spec` returns". -/
+theorem C11_outside_domain_covered (c : Cfg) (w : World) (op : Op) (hd : inDomain (npos c) w op = false)
+    (ha : ArgsOK c w op) (hs : stdDefined (npos c) w op = true) : ∃ k, devCase (npos c) w op = some k := by
+  have h := dev_cover op hd ha hs
+  cases hq : devCase (npos c) w op with
+  | some k => exact ⟨k, rfl⟩
+  | none => rw [hq] at h; cases h
 
-/-- A count that reaches behind the terminator of a C string (`n > strlen( p)`).  `append( p, n)`,
-    `replace( pos, cnt, p, n)`, `compare( pos, cnt, p, n)` and `rfind( p, pos, n)` cut the count at the terminator:
-    they do exactly what the overloads without a count do — `append` leaves `(text ++ C string)` cut at the capacity —
-    whereas the textbook `std::string` overloads take the `n` bytes `[p, p + n)`, NUL and what follows included
-    (`a.take n`, a different text).  Header: "Appends a C string ... Number of characters from str", so `n ≤ strlen`
-    is the documented domain; `inDomain` requires it since the audit (before, the specification itself was cut at
-    the terminator). -/
-theorem C11_deviation_count_beyond_terminator (c : Cfg) (hc : CfgOK c) (s s' : FStr) (hs : WF c s) (a : List Byte)
-    (h0 : (0 : Byte) ∈ a) (n : Nat) (hn : (StdString.ofCStr a).length < n) (h : appendPN c s a n = .ok s') :
-    abs s' = (abs s ++ StdString.ofCStr a).take c.L ∧ a.take n ≠ StdString.ofCStr a ∧
-    (∀ p1 c1, replacePN c s p1 c1 a n = replaceP c s p1 c1 a) ∧
-    (∀ p1 c1 k, cstrlen a = .ok k → partPartCompare s p1 c1 a k 0 n = partPartCompare s p1 c1 a k 0 k) ∧
-    (∀ pos, rfindPN c s a pos n = rfindP c s a pos) := by
-  obtain ⟨k, hk, hlt, hof⟩ := cstrlen_of_mem h0
-  have hkn : k ≤ n := by rw [hof, List.length_take] at hn; omega
-  obtain ⟨e1, e2, e3, e4⟩ := dev_count_clamped c s hk n hkn
-  rw [e1] at h
-  have hnul : hasNul a = true := by unfold hasNul; exact List.contains_iff_mem.mpr h0
-  refine ⟨w2_appendP hc hs hnul h, dev_take_ne_ofCStr h0 hn, e2, ?_, e4⟩
-  intro p1 c1 k' hk'
-  rw [hk] at hk'; cases hk'
-  exact e3 p1 c1
+/-- (2) `append( p, n)`, `replace( pos, cnt, p, n)`, `compare( pos, cnt, p, n)`, `rfind( p, pos, n)` on a `p` without a
+    terminator inside its allocation: the code calls `strlen( p)` and reads behind the allocation (model: `.oob`),
+    although `std::string` needs `[p, p + n)` only.  This is why `ArgsOK` demands a terminator for these four. -/
+theorem C11_unterminated_count_outside_contract (c cu : Cfg) (w : World) (a : List Byte) (h0 : (0 : Byte) ∉ a)
+    (p n k : Nat) :
+    (∃ x, step c cu w (.appendPC a k) = .oob x) ∧ (∃ x, step c cu w (.repCCPC p n a k) = .oob x) ∧
+    (∃ x, step c cu w (.cmpCCPC p n a k) = .oob x) ∧
+    (w.s.len ≠ 0 → ∃ x, step c cu w (.search .rfind (.ppc a p k)) = .oob x) := by
+  have hz : ∀ (l : List Byte) (m : Nat), (0 : Byte) ∉ l → cstrlenAux l m = .oob "strlen" := by
+    intro l
+    induction l with
+    | nil => intro m _; rfl
+    | cons b bs ih =>
+      intro m hm
+      unfold cstrlenAux
+      rw [if_neg (fun h => hm (by rw [h]; exact List.mem_cons_self)), ih _ (fun h => hm (List.mem_cons_of_mem _ h))]
+  have hs : cstrlen a = .oob "strlen" := hz a 0 h0
+  refine ⟨⟨"strlen", ?_⟩, ⟨"strlen", ?_⟩, ⟨"strlen", ?_⟩, fun hl => ⟨"strlen", ?_⟩⟩
+  · simp only [step, appendPN, hs]; rfl
+  · simp only [step, replacePN, hs]; rfl
+  · simp only [step, hs]; rfl
+  · simp only [step, searchStep, rfindPN, if_neg hl, hs]; rfl
+
+/-- `at( length())` (and the const overload) returns the terminator (header: "If the given index is invalid, i.e.
+    after the end of the string ..."; test `at` pins `at( length())`), `std::string::at( size())` throws. -/
+theorem C11_deviation_at_length (c cu : Cfg) (w : World) (hw : WFW c cu w) (op : Op)
+    (hk : devCase (npos c) w op = some .atLength) :
+    step c cu w op = .ok (w, .byte 0) ∧ spec id (npos c) w op = .throw .out_of_range :=
+  dev_step_atLength hw op hk
+
+/-- A count that reaches behind the terminator of a C string (`n > strlen( p)`): `append( p, n)`,
+    `replace( pos, cnt, p, n)`, `compare( pos, cnt, p, n)` and `rfind( p, pos, n)` do exactly what the same call with
+    `n = strlen( p)` does (`clampCount op`, which is inside the count restriction of `inDomain`), whereas the textbook
+    overloads take the `n` bytes `[p, p + n)`, NUL and what follows included (`a.take n`, a different text).
+    Header: "Appends a C string ... Number of characters from str". -/
+theorem C11_deviation_count_beyond_terminator (c cu : Cfg) (w : World) (op : Op)
+    (hk : devCase (npos c) w op = some .countBeyondTerminator) :
+    step c cu w op = step c cu w (clampCount op) ∧
+    ∃ a k, countArg op = some (a, k) ∧ (StdString.ofCStr a).length < k ∧ a.take k ≠ StdString.ofCStr a :=
+  dev_step_countBeyondTerminator op hk
 
 /-- `end()` — or an iterator built at a position `≥ size()`, which is `end()` too — as the position of the three
     iterator `insert` overloads: nothing is inserted and `end()` is returned (header: "pointing to end if the given
-    position was invalid"; test lines 750-756 "insert using an invalid iterator for the position --> insert nothing",
-    1301-1309 "insert at end == insertz nothing"); `std::string::insert( end(), ...)` appends. -/
-theorem C11_deviation_insert_at_end (c cu : Cfg) (w : World) (hw : WFW c cu w) (p : ItArg)
-    (hp : actsEnd (abs w.s) p = true) (n : Nat) (ch : Byte) (il : Str) :
-    step c cu w (.insertItCC p n ch) = .ok (w, .iter (itEnd c)) ∧
-    step c cu w (.insertItC p ch) = .ok (w, .iter (itEnd c)) ∧
-    step c cu w (.insertItIl p il) = .ok (w, .iter (itEnd c)) ∧
-    spec id (npos c) w (.insertItCC p n ch) = .ok (abs w.s ++ List.replicate n ch, .unit) ∧
-    spec id (npos c) w (.insertItC p ch) = .ok (abs w.s ++ [ch], .unit) ∧
-    spec id (npos c) w (.insertItIl p il) = .ok (abs w.s ++ il, .unit) := by
-  have hi := itOf_actsEnd hw.1 hp
-  have hq := itPos_actsEnd hp
-  refine ⟨?_, ?_, ?_, ?_, ?_, ?_⟩
-  · show mutIt w (insertItCh c w.s (itOf c w.s p) n ch) = _
-    rw [hi, (dev_insert_at_end c w.s n ch il).1]; rfl
-  · show mutIt w (insertItCh c w.s (itOf c w.s p) 1 ch) = _
-    rw [hi, (dev_insert_at_end c w.s 1 ch il).1]; rfl
-  · show mutIt w (insertItList c w.s (itOf c w.s p) il) = _
-    rw [hi, (dev_insert_at_end c w.s n ch il).2]; rfl
-  · simp only [spec, hq, std_insert_at_end]; rfl
-  · simp only [spec, hq, std_insert_at_end]; rfl
-  · simp only [spec, hq, std_insert_at_end]; rfl
+    position was invalid"; test lines 750-756, 1301-1309 "insert at end == insertz nothing");
+    `std::string::insert( end(), ...)` appends the text (`insText op`). -/
+theorem C11_deviation_insert_at_end (c cu : Cfg) (w : World) (hw : WFW c cu w) (op : Op)
+    (hk : devCase (npos c) w op = some .insertAtEnd) :
+    step c cu w op = .ok (w, .iter (itEnd c)) ∧ spec id (npos c) w op = .ok (abs w.s ++ insText op, .unit) :=
+  dev_step_insertAtEnd hw op hk
+
+/-- `end()` as the first iterator of a range to replace (all six iterator overloads): nothing happens (test lines
+    2602-2608); `std::string::replace( end(), end(), r)` appends `r`. -/
+theorem C11_deviation_range_from_end (c cu : Cfg) (w : World) (hw : WFW c cu w) (op : Op) (ha : ArgsOK c w op)
+    (hs : stdDefined (npos c) w op = true) (hk : devCase (npos c) w op = some .rangeFromEnd) :
+    ∃ f l r, repParts w op = some (f, l, r) ∧ step c cu w op = .ok (w, .unit) ∧
+      spec id (npos c) w op = .ok (abs w.s ++ r, .unit) := by
+  obtain ⟨f, l, r, h1, h2, h3, h4⟩ := dev_step_itRep hw op ha hs .rangeFromEnd trivial hk
+  refine ⟨f, l, r, h1, h3, ?_⟩
+  have hf : itPos (abs w.s) f = (abs w.s).length := by
+    unfold itRepCase at h2
+    split at h2
+    · rename_i he; exact cover_actsEnd_pos he
+    · split at h2
+      · cases h2
+      · split at h2 <;> cases h2
+  have hle : itPos (abs w.s) f ≤ itPos (abs w.s) l := by
+    have : (spec id (npos c) w op).isOk = true := by rw [h4]; rfl
+    cases op <;> simp only [repParts] at h1 <;> try (cases h1; done)
+    all_goals (cases h1; simp only [spec, isOk_if_throw, isOk_thenS, isOk_replace] at this; exact cover_le_of this)
+  have hl : itPos (abs w.s) l = (abs w.s).length := by have := itPos_le (abs w.s) l; omega
+  rw [h4, hf, hl, List.take_length, List.drop_length, List.append_nil]
 
 /-- An empty range `[first, first)` as the part to replace (all six iterator overloads of `replace`): nothing
     happens (test lines 2594-2601 "replace a part using invalid iterators --> replaces nothing");
-    `std::string::replace( first, first, ...)` inserts the new text at `first`. -/
-theorem C11_deviation_replace_empty_range (c : Cfg) (s o : FStr) (f x y : Nat) (d : Str) (i j : Nat) (a : List Byte)
-    (n2 ch : Nat) (il : Str) (xs r : Str) (k : Nat) (hk : k ≤ xs.length) :
-    (replaceItIt c s f f o x y = .ok s ∧ replaceItSIt c s f f d i j = .ok s ∧ replaceItPN c s f f a n2 = .ok s ∧
-     replaceItP c s f f a = bindR (cstrlen a) (fun _ => .ok s) ∧ replaceItCh c s f f n2 ch = .ok s ∧
-     replaceItList c s f f il = .ok s) ∧
-    StdString.replace xs k 0 r = .ok (xs.take k ++ r ++ xs.drop k) :=
-  ⟨dev_replace_empty_range c s o f x y d i j a n2 ch il, std_replace_empty_range xs r k hk⟩
+    `std::string::replace( first, first, r)` inserts `r` at `first`. -/
+theorem C11_deviation_replace_empty_range (c cu : Cfg) (w : World) (hw : WFW c cu w) (op : Op) (ha : ArgsOK c w op)
+    (hs : stdDefined (npos c) w op = true) (hk : devCase (npos c) w op = some .replaceEmptyRange) :
+    ∃ f l r, repParts w op = some (f, l, r) ∧ itPos (abs w.s) l ≤ itPos (abs w.s) f ∧
+      step c cu w op = .ok (w, .unit) ∧
+      spec id (npos c) w op =
+        .ok ((abs w.s).take (itPos (abs w.s) f) ++ r ++ (abs w.s).drop (itPos (abs w.s) l), .unit) := by
+  obtain ⟨f, l, r, h1, h2, h3, h4⟩ := dev_step_itRep hw op ha hs .replaceEmptyRange trivial hk
+  refine ⟨f, l, r, h1, ?_, h3, h4⟩
+  unfold itRepCase at h2
+  split at h2
+  · cases h2
+  · split at h2
+    · assumption
+    · split at h2 <;> cases h2
 
-/-- An empty replacement text through the iterator overloads (`first2 == last2`, count 0, empty initializer list):
-    nothing happens (test: `replace( it, end, "")` pinned); `std::string` erases the range. -/
-theorem C11_deviation_replace_by_nothing (c : Cfg) (s o : FStr) (f l x : Nat) (d : Str) (i : Nat) (a : List Byte)
-    (ch : Nat) (xs : Str) (k n : Nat) (hk : k ≤ xs.length) :
-    (replaceItIt c s f l o x x = .ok s ∧ replaceItSIt c s f l d i i = .ok s ∧ replaceItPN c s f l a 0 = .ok s ∧
-     replaceItCh c s f l 0 ch = .ok s ∧ replaceItList c s f l [] = .ok s) ∧
-    StdString.replace xs k n [] = .ok (xs.take k ++ xs.drop (k + n)) :=
-  ⟨dev_replace_by_nothing c s o f l x d i a ch, std_replace_by_nothing xs k n hk⟩
+/-- An empty replacement text through the iterator overloads (`first2 == last2`, count 0, `""`, empty initializer
+    list): nothing happens (test: `replace( it, end, "")` pinned); `std::string` erases the range. -/
+theorem C11_deviation_replace_by_nothing (c cu : Cfg) (w : World) (hw : WFW c cu w) (op : Op) (ha : ArgsOK c w op)
+    (hs : stdDefined (npos c) w op = true) (hk : devCase (npos c) w op = some .replaceByNothing) :
+    ∃ f l, (∃ r, repParts w op = some (f, l, r) ∧ r = []) ∧ step c cu w op = .ok (w, .unit) ∧
+      spec id (npos c) w op =
+        .ok ((abs w.s).take (itPos (abs w.s) f) ++ (abs w.s).drop (itPos (abs w.s) l), .unit) := by
+  obtain ⟨f, l, r, h1, h2, h3, h4⟩ := dev_step_itRep hw op ha hs .replaceByNothing trivial hk
+  have hr : r = [] := by
+    unfold itRepCase at h2
+    split at h2
+    · cases h2
+    · split at h2
+      · cases h2
+      · split at h2
+        · rename_i h; exact List.eq_nil_of_length_eq_zero h
+        · cases h2
+  refine ⟨f, l, ⟨r, h1, hr⟩, h3, ?_⟩
+  rw [h4, hr, List.append_nil]
 
-/-- `end()` as the first iterator of a range to replace or erase: nothing happens (test lines 2602-2608);
-    `std::string::replace( end(), end(), r)` appends `r`, `erase( end(), end())` does nothing either (only the
-    returned iterator is not compared). -/
-theorem C11_deviation_range_from_end (c : Cfg) (s o : FStr) (l x y : Nat) (d : Str) (i j : Nat) (n2 ch : Nat)
-    (xs r : Str) :
-    (replaceItIt c s (itEnd c) l o x y = .ok s ∧ replaceItSIt c s (itEnd c) l d i j = .ok s ∧
-     replaceItCh c s (itEnd c) l n2 ch = .ok s ∧ eraseItIt c s (itEnd c) l = .ok (s, itEnd c) ∧
-     eraseIt c s (itEnd c) = .ok (s, itEnd c)) ∧
-    StdString.replace xs xs.length 0 r = .ok (xs ++ r) := by
-  refine ⟨dev_range_from_end c s o l x y d i j n2 ch, ?_⟩
-  rw [std_replace_empty_range xs r xs.length (Nat.le_refl _), List.take_length, List.drop_length, List.append_nil]
+/-- `replace( first, last, first2, end())` where the text of the source behind `first2` contains a NUL character:
+    the code measures the source with `strlen( &*first2)` and takes the characters up to that NUL only;
+    `std::string` takes the whole range. -/
+theorem C11_deviation_nul_in_iterator_source (c cu : Cfg) (hc : CfgOK c) (w : World) (hw : WFW c cu w)
+    (f l i j : ItArg) (hk : devCase (npos c) w (.repItItItIt f l i j) = some .nulInIteratorSource) :
+    (∀ w' o, step c cu w (.repItItItIt f l i j) = .ok (w', o) →
+      abs w'.s = ((abs w.s).take (itPos (abs w.s) f) ++ StdString.ofCStr ((abs w.t).drop (itPos (abs w.t) i)) ++
+                  (abs w.s).drop (itPos (abs w.s) l)).take c.L) ∧
+    spec id (npos c) w (.repItItItIt f l i j) =
+      .ok ((abs w.s).take (itPos (abs w.s) f) ++ (abs w.t).drop (itPos (abs w.t) i) ++
+           (abs w.s).drop (itPos (abs w.s) l), .unit) ∧
+    StdString.ofCStr ((abs w.t).drop (itPos (abs w.t) i)) ≠ (abs w.t).drop (itPos (abs w.t) i) :=
+  dev_step_nulInIteratorSource hc hw f l i j hk
 
-/-- Empty search strings and empty character sets.  `contains`, `find`, `rfind` and the four `find_*_of` families
-    answer `false` / `npos` for every content and every position (tests: 2232-2239 "always returns false for empty
-    strings", 2966, 3142, 3240 `rfind( "", 0, 5) == npos`, 3429, 3638).  `std::string` finds the empty string
-    everywhere: `contains( "")` is true, `find( "", pos) = pos`, `rfind( "", pos) = min( pos, size())`,
-    `find_first_not_of( "", pos) = pos` inside the string; only `find_first_of( "")` is `npos` there too. -/
-theorem C11_deviation_empty_needle (c : Cfg) (s : FStr) (a : List Byte) (pos : Nat) (neg : Bool) (x : Str) :
-    (containsImpl s a 0 = .ok false ∧ findN s a pos 0 = .ok none ∧ rfindN c s a pos 0 = .ok none ∧
-     findFirstOfImpl s a pos 0 neg = .ok none ∧ findFirstOfPN s a pos 0 neg = .ok none ∧
-     findLastOfImpl c s a pos 0 neg = .ok none ∧ findLastOfPN s a pos 0 neg = .ok none) ∧
+/-- Empty search strings and empty character sets: `contains` answers `false`, `find`, `rfind` and the four
+    `find_*_of` families `npos`, for every content and every position (tests: 2232-2239 "always returns false for
+    empty strings", 2966, 3142, 3240, 3429, 3638).  The textbook side is `C11_std_empty_needle`. -/
+theorem C11_deviation_empty_needle (c cu : Cfg) (w : World) (hw : WFW c cu w) (op : Op) (ha : ArgsOK c w op)
+    (hk : devCase (npos c) w op = some .emptyNeedle) : step c cu w op = .ok (w, emptyOut op) :=
+  dev_step_emptyNeedle hw op ha hk
+
+/-- ... whereas `std::string` finds the empty string everywhere: `contains( "")` is true, `find( "", pos) = pos`,
+    `rfind( "", pos) = min( pos, size())`, `find_first_not_of( "", pos) = pos` inside the string; `find_first_of( "")`
+    and `find_last_of( "")` are `npos` there too (there the code agrees). -/
+theorem C11_std_empty_needle (x : Str) (pos : Nat) :
     StdString.contains x [] = true ∧ (pos ≤ x.length → StdString.find x [] pos = some pos) ∧
     StdString.rfind x [] pos = some (min pos x.length) ∧
-    (pos < x.length → StdString.findFirstNotOf x [] pos = some pos) ∧ StdString.findFirstOf x [] pos = none ∧
-    StdString.findLastNotOf [97, 98] [] 5 = some 1 :=
-  ⟨dev_empty_needle c s a pos neg, std_contains_empty x, std_find_empty x pos, std_rfind_empty x pos,
-   std_ffno_empty x pos, std_ffo_empty x pos, by decide⟩
+    (pos < x.length → StdString.findFirstNotOf x [] pos = some pos) ∧ StdString.findFirstOf x [] pos = none :=
+  ⟨std_contains_empty x, std_find_empty x pos, std_rfind_empty x pos, std_ffno_empty x pos, std_ffo_empty x pos⟩
 
-/-- Backward searches with an explicit start position at or behind the end (other than `npos`): `rfind( ch, pos)`,
-    `find_last_of` and `find_last_not_of` answer `npos` (tests: 3301 `rfind( 'l', 20) == npos` on a string of length
-    20, 3595 `find_last_of( srch, 25, 6) == npos`, 3621 `find_last_of( 'e', 26) == npos`).  `std::string` clamps the
-    position: every `pos ≥ size()` gives the answer of the default position `npos` — which the code gives for `npos`
-    only (`C11_step`). -/
-theorem C11_deviation_backward_beyond_end (c : Cfg) (hc : CfgOK c) (s : FStr) (a : List Byte) (ch pos count : Nat)
-    (neg : Bool) (hp : s.len ≤ pos) (hn : pos < npos c) (x pat : Str) (p : Byte → Bool) (hx : x.length ≤ pos) :
-    (rfindCh c s ch pos = .ok none ∧ findLastOfCh c s ch pos neg = .ok none ∧
-     findLastOfImpl c s a pos count neg = .ok none ∧ (s.len < pos → findLastOfPN s a pos count neg = .ok none)) ∧
-    StdString.rfind x pat pos = StdString.rfind x pat (npos c) ∧
-    StdString.findLast x p pos = StdString.findLast x p (npos c) :=
-  ⟨dev_backward_beyond hc s a ch pos count neg hp hn,
-   std_rfind_beyond x pat pos (npos c) hx (by omega),
-   std_findLast_beyond x p pos (npos c) (by omega) (by omega)⟩
+/-- `rfind( p, pos, 0)`: `npos` on an empty string and for `p == ""`, otherwise `min( pos, size())` — which is what
+    `std::string::rfind( p, pos, 0)` answers in every case. -/
+theorem C11_deviation_rfind_count_zero (c cu : Cfg) (hc : CfgOK c) (w : World) (hw : WFW c cu w) (op : Op)
+    (ha : ArgsOK c w op) (hk : devCase (npos c) w op = some .rfindCountZero) :
+    ∃ a p, op = .search .rfind (.ppc a p 0) ∧
+      step c cu w op = .ok (w, .pos (if w.s.len = 0 ∨ a.head? = some 0 then none else some (min p w.s.len))) ∧
+      spec id (npos c) w op = .ok (abs w.s, .pos (some (min p (abs w.s).length))) :=
+  dev_step_rfindCountZero hc hw op ha hk
+
+/-- Backward searches with an explicit start position at or behind the end (other than `npos`; for the
+    `( str, pos, count)` overloads of `find_last_of` / `find_last_not_of` also `npos`, and since fix 3448a31 also
+    `pos == size()`): `rfind( ch, pos)`, `find_last_of` and `find_last_not_of` answer `npos` (tests: 3301
+    `rfind( 'l', 20) == npos` on a string of length 20, 3595, 3621).  `std::string` clamps the position: the answer
+    is the one for `npos` — which the code gives for `npos` only (`C11_step`).  `hsz`: the position is a `size_t`. -/
+theorem C11_deviation_backward_beyond_end (c cu : Cfg) (hc : CfgOK c) (w : World) (hw : WFW c cu w) (fam : Fam)
+    (nd : Needle) (ha : ArgsOK c w (.search fam nd)) (hsz : needlePos (npos c) nd < c.W)
+    (hk : devCase (npos c) w (.search fam nd) = some .backwardBeyondEnd) :
+    step c cu w (.search fam nd) = .ok (w, .pos none) ∧ (abs w.s).length ≤ needlePos (npos c) nd ∧
+    spec id (npos c) w (.search fam nd) = spec id (npos c) w (.search fam (nd.atNpos (npos c))) :=
+  dev_step_backwardBeyondEnd hc hw fam nd ha hsz hk
+
+/-- The strchr-based character-class searches (`find_first_of`, `find_first_not_of`, `find_last_of`,
+    `find_last_not_of` with a FixedString, `std::string` or C-string argument) on a content or a set with an embedded
+    NUL: the answer is the textbook answer for the set `ofCStr pat ++ [0]` — the set ends at its first NUL, and NUL
+    belongs to every set (`strchr( str, '\0')` finds the terminator).  Holds for every content. -/
+theorem C11_deviation_strchr_nul (c cu : Cfg) (hc : CfgOK c) (w : World) (hw : WFW c cu w) (fam : Fam) (nd : Needle)
+    (ha : ArgsOK c w (.search fam nd)) (hk : devCase (npos c) w (.search fam nd) = some .strchrNul) :
+    step c cu w (.search fam nd) =
+      .ok (w, .pos (famStd fam (abs w.s) (StdString.ofCStr (needleText w nd) ++ [0]) (needlePos (famDflt c fam) nd))) :=
+  dev_step_strchrNul hc hw fam nd ha hk
 
 /-! ### the hypotheses are satisfiable, the statements are not vacuous -/
 
@@ -373,5 +448,48 @@ example : actsEnd (abs ⟨[97, 98, 99, 0, 7], 3⟩) (.pos 3) = true ∧ actsEnd 
 /-- backward search behind the end: `rfind( 'c', 3)` on "abc" is `npos`, `std::string` answers 2 -/
 example : rfindCh ⟨4, 2 ^ 64, 256⟩ ⟨[97, 98, 99, 0, 7], 3⟩ 99 3 = .ok none ∧ StdString.rfind [97, 98, 99] [99] 3 = some 2 :=
   ⟨rfl, by decide⟩
+
+/-! #### the complement of the domain: the hypotheses of the coverage and deviation theorems are satisfiable -/
+
+/-- the second audit's witness `FixedString( "abc").find_last_not_of( "x", 3, 1)`: outside the domain, `std::string`
+    defined (2), caller contract fine; the pinned code answered 3 = `size()`, since fix 3448a31 it answers `npos` like
+    the sibling overloads, and the case falls under `backwardBeyondEnd` -/
+example : inDomain (npos ⟨4, 2 ^ 64, 256⟩) ⟨⟨[97, 98, 99, 0, 7], 3⟩, fresh ⟨4, 2 ^ 64, 256⟩, fresh ⟨9, 2 ^ 64, 256⟩⟩
+      (.search .flno (.ppc [120, 0] 3 1)) = false ∧
+    stdDefined (npos ⟨4, 2 ^ 64, 256⟩) ⟨⟨[97, 98, 99, 0, 7], 3⟩, fresh ⟨4, 2 ^ 64, 256⟩, fresh ⟨9, 2 ^ 64, 256⟩⟩
+      (.search .flno (.ppc [120, 0] 3 1)) = true ∧
+    devCase (npos ⟨4, 2 ^ 64, 256⟩) ⟨⟨[97, 98, 99, 0, 7], 3⟩, fresh ⟨4, 2 ^ 64, 256⟩, fresh ⟨9, 2 ^ 64, 256⟩⟩
+      (.search .flno (.ppc [120, 0] 3 1)) = some .backwardBeyondEnd := by decide
+example : ArgsOK ⟨4, 2 ^ 64, 256⟩ ⟨⟨[97, 98, 99, 0, 7], 3⟩, fresh ⟨4, 2 ^ 64, 256⟩, fresh ⟨9, 2 ^ 64, 256⟩⟩
+    (.search .flno (.ppc [120, 0] 3 1)) := ⟨by decide, by decide⟩
+example : findLastOfPN ⟨[97, 98, 99, 0, 7], 3⟩ [120, 0] 3 1 true = .ok none ∧
+    StdString.findLastNotOf [97, 98, 99] [120] 3 = some 2 := ⟨rfl, by decide⟩
+/-- `rfind( '\0')` is inside the domain since fix 26f1f28 and answers `npos` like `std::string` (before: 3) -/
+example : inDomain (npos ⟨4, 2 ^ 64, 256⟩) ⟨⟨[97, 98, 99, 0, 7], 3⟩, fresh ⟨4, 2 ^ 64, 256⟩, fresh ⟨9, 2 ^ 64, 256⟩⟩
+    (.search .rfind (.c 0 none)) = true := by decide
+example : rfindCh ⟨4, 2 ^ 64, 256⟩ ⟨[97, 98, 99, 0, 7], 3⟩ 0 (npos ⟨4, 2 ^ 64, 256⟩) = .ok none ∧
+    StdString.rfind [97, 98, 99] [0] (npos ⟨4, 2 ^ 64, 256⟩) = none := ⟨rfl, by decide⟩
+/-- `erase( it, it)` on a dereferenceable `it` and an explicit `npos` as position are inside the domain now -/
+example : inDomain (npos ⟨4, 2 ^ 64, 256⟩) ⟨⟨[97, 98, 99, 0, 7], 3⟩, fresh ⟨4, 2 ^ 64, 256⟩, fresh ⟨9, 2 ^ 64, 256⟩⟩
+    (.eraseItIt (.pos 1) (.pos 1)) = true := by decide
+/-- one witness per deviation kind (the `devCase` hypotheses of the theorems above are satisfiable) -/
+example :
+    let c : Cfg := ⟨4, 2 ^ 64, 256⟩
+    let w : World := ⟨⟨[97, 0, 99, 0, 7], 3⟩, ⟨[120, 0, 121, 0, 7], 3⟩, fresh ⟨9, 2 ^ 64, 256⟩⟩
+    devCase (npos c) w (.atI 3) = some .atLength ∧
+    devCase (npos c) w (.appendPC [120, 0, 121] 3) = some .countBeyondTerminator ∧
+    devCase (npos c) w (.insertItC .fin 120) = some .insertAtEnd ∧
+    devCase (npos c) w (.repItItCC .fin .fin 1 120) = some .rangeFromEnd ∧
+    devCase (npos c) w (.repItItCC (.pos 1) (.pos 1) 1 120) = some .replaceEmptyRange ∧
+    devCase (npos c) w (.repItItCC (.pos 0) (.pos 1) 0 120) = some .replaceByNothing ∧
+    devCase (npos c) w (.repItItItIt (.pos 0) (.pos 1) (.pos 0) .fin) = some .nulInIteratorSource ∧
+    devCase (npos c) w (.ctS []) = some .emptyNeedle ∧
+    devCase (npos c) w (.search .rfind (.ppc [120, 0] 1 0)) = some .rfindCountZero ∧
+    devCase (npos c) w (.search .rfind (.c 99 (some 3))) = some .backwardBeyondEnd ∧
+    devCase (npos c) w (.search .ffo (.s [120] none)) = some .strchrNul := by decide
+/-- ... and the three hypotheses of the coverage theorem hold jointly for a non-trivial operation -/
+example : ∃ k, devCase (npos ⟨4, 2 ^ 64, 256⟩)
+    ⟨⟨[97, 98, 99, 0, 7], 3⟩, fresh ⟨4, 2 ^ 64, 256⟩, fresh ⟨9, 2 ^ 64, 256⟩⟩ (.repItItCC (.pos 1) (.pos 1) 2 120) = some k :=
+  C11_outside_domain_covered _ _ _ (by decide) trivial (by decide)
 
 end CelmaVerif.Props.C11
